@@ -59,7 +59,7 @@ CHECKS = {
     'C07': (['FM94.tla', 'FM94Gen.tla'],
             'TLA+ spec FM94.tla bitmap automaton model-checked by TLC over base templates x bitmap lengths 1..4/5 x all 0/1 patterns x operator chains '
             '(action property KthValueKthZero with an independent NthZero scan, invariants on window, associated fields, 225255 parameters, meanings); '
-            'every behaviour replayed into the real Decoder/Encoder: bitmap_links and the attribute/meaning relations of the hierarchical view compared; nested 204 (FM94.NestedAssoc) and subsets with swapped replication counts in front of the bitmap',
+            'every behaviour replayed into the real Decoder/Encoder: bitmap_links and the attribute/meaning relations of the hierarchical view compared; nested 204 (FM94.NestedAssoc), subsets with swapped replication counts in front of the bitmap, links of Scope.Scoped programs also through a compiling decoder',
             'All bitmap patterns up to the bound are enumerated on the specification and on the implementation; links, marker labels and parameters, '
             'and the attribute placement in the real tree must equal the specification.',
             'Trusted: TLC; the bitmap reading in FM94.tla (BackRefIncludesClass31 named); 204 across marker operators outside WF.',
@@ -92,7 +92,7 @@ CHECKS = {
     'C17': (['MdQuery.tla', 'Stream.tla', 'Framing.tla', 'Cmd.tla'],
             'TLA+ spec MdQuery.tla (expression parser + first-match/explicit-section lookup over section layouts read as data, cross-checked against Framing.tla) '
             'model-checked by TLC over all parameter names x index forms x prefixes x editions x section 2 x mode; every case replayed into MetadataQuerent on real '
-            'full / metadata-only decodes, and in both orders through one querent and one decoder per series of messages; Stream.tla runs in metadata-only mode with data damage; corpus messages with overwritten data sections; metadata-only scans (three filters) over the prepbufr stream with overwritten data sections; Cmd.tla query invocations',
+            'full / metadata-only decodes, and in both orders through one querent and one decoder per series of messages; Stream.tla runs in metadata-only mode with data damage; corpus messages with overwritten data sections (metadata-only, also together with values not enforced); metadata-only scans (three filters) over the prepbufr stream with overwritten data sections; Cmd.tla query invocations',
             'Exhaustive over the bounded expression space on specification and implementation; metadata-only decoding shown independent of the data section.',
             'Trusted: TLC; MdQuery.tla; definitions/*.json as data for parameter names.',
             'DESIGN.md section 3 C17'),
@@ -107,13 +107,13 @@ CHECKS = {
     'C14': (['Tables.tla', 'TablesMC.tla', 'TableSel.tla'],
             'TLA+ specs Tables.tla/TablesMC.tla (Build/Flatten/Expand over the table files as data) model-checked by TLC over all descriptor lists up to length 5/6 '
             '(FlattenBuildIsId, OwnershipCount, FactorIsClass31, SequencesExpand); every well-formed list replayed into template_from_ids; recorded shapes of longer lists, '
-            'every Table D/B entry of the selected versions and the version fall-back (TableSel.tla) validated against the library; expansions repeated in a process that has read in-stream table definitions, versions in turn',
+            'every Table D/B entry of the selected versions and the version fall-back (TableSel.tla) validated against the library; expansions repeated in a process that has read in-stream table definitions, versions in turn; selection per tables root (a second root with two versions asked first, through get_table_group)',
             'Exhaustive over the bounded list space on both sides; exhaustive over the data of the selected table versions (thorough: all bundled ones).',
             'Trusted: TLC; the reading of FM-94 94.5.4 in Build; table JSON files; references >= 2^31 not compared.',
             'DESIGN.md section 3 C14'),
     'C16': (['Query.tla', 'Wiring.tla', 'FM94Tree.tla', 'Cmd.tla'],
             'TLA+ spec Query.tla (path evaluation with slices, replication envelopes, bare IDs, subset selectors) over Wiring.tla trees; TLC evaluates every path that exists in every '
-            'behaviour (depth 4/6) with every slice form (incl. bounds of different sign) at every position; each (message, subset, path) replayed into DataQuerent on interpreted and compiled decodes, compressed and uncompressed, per subset (@[s]) and over the whole message (every subset, reversed selector), on one long-lived querent with malformed paths in between; Cmd.tla query invocations',
+            'behaviour (depth 4/6) with every slice form (incl. bounds of different sign) at every position; each (message, subset, path) replayed into DataQuerent on interpreted and compiled decodes, compressed and uncompressed, per subset (@[s]) and over the whole message (every subset, reversed selector), on one long-lived querent per worker process (paths meet messages of different subset counts) with malformed paths in between; Cmd.tla query invocations',
             'The specification is the executable meaning of the path language; results are compared value by value (nested structure included) for every generated path.',
             'Trusted: TLC; Query.tla/Wiring.tla; paths are generated from the specification tree.',
             'DESIGN.md section 3 C16'),
@@ -133,14 +133,14 @@ CHECKS = {
             'DESIGN.md section 3 C08'),
     'C10': (['Subset.tla', 'FM94.tla'],
             'TLA+ spec Subset.tla (which subsets a request designates; refusal) model-checked by TLC over all requests of <=3/4 indices over -1..n, and for messages of 11 (17) subsets over requests drawn from indices around 0, 8, the middle and n; each request applied with '
-            'BufrMessage.subset to real decodes of FM94-generated messages (compressed and not), re-encoded (also with declared lengths honoured: the result is a valid message) and decoded, compared with the specification subsets; CLI and corpus',
+            'BufrMessage.subset to real decodes of FM94-generated messages (compressed and not), re-encoded (also with declared lengths honoured: the result is a valid message; a second extraction from the same message before the first is encoded) and decoded, compared with the specification subsets; CLI and corpus',
             'Exhaustive over the bounded request space; data content from FM94 behaviours.',
             'Trusted: TLC; Subset.tla; FM94.tla; all-ones = missing identification as the property states.',
             'DESIGN.md section 3 C10'),
     'C13': (['Caches.tla', 'FM94.tla'],
             'TLA+ spec Caches.tla (table-group cache with bounded most-recent-first eviction, compiled-template cache, message objects; operations as actions) model-checked by TLC; '
             'every transition of the state graph emitted with its shortest history (transition tour) and executed against the real code in worker subprocesses with the cache limits '
-            'set as in the model; each step compared with the same operation in a fresh process; lenient decoding, an identification with missing tables and FAILED decodes (three ways to fail) are operations AND state of the model; a template outside Compiler.Scoped with its reference per configuration; one history at the real limit of 50 over 59 table-group keys',
+            'set as in the model; each step compared with the same operation in a fresh process; lenient decoding, an identification with missing tables FAILED decodes (three ways to fail) and the metadata-only decode are operations AND state of the model; a template outside Compiler.Scoped with its reference per configuration; one history at the real limit of 50 over 59 table-group keys',
             'All (state, operation) pairs of the cache model up to the history bound are exercised on the implementation; results must be history-independent.',
             'Trusted: TLC; Caches.tla; fresh-process results of the implementation as reference (tied to FM94.tla by C01/C02).',
             'DESIGN.md section 3 C13'),
